@@ -233,7 +233,7 @@ func c07CloseOnce(c *Check, P string, r *GCRoles) {
 	c.Report(n == len(sig), P+".O3", "WHO-MAY-CLOSE-SIGNAL", Cl, Cl.Pos(), "closing signal", "only GoChannel.Close closes the Pub/Sub's closing signal")
 	// every flag access is under the lock (except the constructor)
 	for _, a := range r.LA.Accesses(r.Closed) {
-		if a.Ins.Parent() == r.New {
+		if HomeFn(a.Ins.Parent()) == r.New {
 			continue
 		}
 		held := r.LA.Held(a.Ins)
@@ -241,7 +241,7 @@ func c07CloseOnce(c *Check, P string, r *GCRoles) {
 	}
 	// subscription close: one call site, not in a loop
 	sites := Callers(r.Funcs, r.SubClose)
-	c.Report(len(sites) == 1 && sites[0].Parent() == r.Teardown && !InLoop(sites[0]), P+".O3", "SUBSCRIPTION-CLOSED-ONCE", r.Teardown, r.Teardown.Pos(), "subscription close call",
+	c.Report(len(sites) == 1 && HomeFn(sites[0].Parent()) == r.Teardown && !InLoop(sites[0]), P+".O3", "SUBSCRIPTION-CLOSED-ONCE", r.Teardown, r.Teardown.Pos(), "subscription close call",
 		fmt.Sprintf("the subscription close function is called from exactly one site (the teardown, once): %d call sites", len(sites)))
 	// one teardown per subscription
 	var gos []*ssa.Go
@@ -448,7 +448,7 @@ func c07Persisted(c *Check, P string, r *GCRoles) {
 func c07PersistedGuard(c *Check, id string, r *GCRoles) {
 	n := 0
 	for _, a := range r.LA.Accesses(r.Persisted) {
-		fn := a.Ins.Parent()
+		fn := HomeFn(a.Ins.Parent())
 		if fn == r.New {
 			continue
 		}
@@ -471,7 +471,7 @@ func c07PersistedRest(c *Check, P string, r *GCRoles) {
 	// the subscriber map: reads under the subscribers lock (any mode), writes under its write mode
 	ns := 0
 	for _, a := range r.LA.Accesses(r.Subs) {
-		fn := a.Ins.Parent()
+		fn := HomeFn(a.Ins.Parent())
 		if fn == r.New {
 			continue
 		}
@@ -486,14 +486,14 @@ func c07PersistedRest(c *Check, P string, r *GCRoles) {
 	for _, f := range []*types.Var{r.SOut, r.SClosing, r.SCtx} {
 		for _, fn := range r.Funcs {
 			for _, st := range FieldStores(fn, f) {
-				c.Report(fn == r.Subscribe, P+".O6", "WHO-MAY-WRITE/subscription", fn, st.Pos(), "store to subscription field", "a subscription's output channel, closing signal and context are assigned only while it is built in Subscribe (immutable afterwards, so unsynchronised reads are safe)")
+				c.Report(HomeFn(fn) == r.Subscribe, P+".O6", "WHO-MAY-WRITE/subscription", fn, st.Pos(), "store to subscription field", "a subscription's output channel, closing signal and context are assigned only while it is built in Subscribe (immutable afterwards, so unsynchronised reads are safe)")
 			}
 		}
 	}
 	// the closed flag of a subscription is written only by its close function
 	for _, fn := range r.Funcs {
 		for _, st := range FieldStores(fn, r.SClosed) {
-			c.Report(fn == r.SubClose, P+".O6", "WHO-MAY-WRITE/subscription-closed", fn, st.Pos(), "store to the subscription's closed flag", "only the subscription close function sets the closed flag")
+			c.Report(HomeFn(fn) == r.SubClose, P+".O6", "WHO-MAY-WRITE/subscription-closed", fn, st.Pos(), "store to the subscription's closed flag", "only the subscription close function sets the closed flag")
 		}
 	}
 }
@@ -766,7 +766,17 @@ func c07Decorator(c *Check, P string) {
 	}
 	// signals raised in Close before Wait (directly or through sync.Once.Do)
 	raised := map[*types.Var]bool{}
-	for _, f := range WithAnon(cls) {
+	raisers := WithAnon(cls)
+	for _, oc := range CallsIn(cls) {
+		if CalleeName(oc) == "(*sync.Once).Do" {
+			for _, a := range oc.Common().Args {
+				if bt := c.P.BoundMethodTarget(firstOrigin(a)); bt != nil && bt.Pkg == cls.Pkg {
+					raisers = append(raisers, bt) // `once.Do(t.method)`
+				}
+			}
+		}
+	}
+	for _, f := range raisers {
 		for _, sf := range sigs {
 			sf := sf
 			for _, cl := range CloseSites(f, func(v ssa.Value) bool { return AllOrigins(v, IsFieldLoad(sf)) }) {
@@ -776,7 +786,7 @@ func c07Decorator(c *Check, P string) {
 					site = nil
 					for _, oc := range CallsIn(cls) {
 						for _, a := range oc.Common().Args {
-							if FuncOfValue(firstOrigin(a)) == f && CalleeName(oc) == "(*sync.Once).Do" {
+							if (FuncOfValue(firstOrigin(a)) == f || c.P.BoundMethodTarget(firstOrigin(a)) == f) && CalleeName(oc) == "(*sync.Once).Do" {
 								site = oc
 							}
 						}
